@@ -60,6 +60,11 @@ POOLS = {'GRID': GRID, 'INTS': INTS, 'FLOAT': FLOAT, 'NASTY': NASTY}
 HANDLERS = ['none', 'cont', 'rewait', 'ret', 'raise', 'other']
 
 
+# the kernel's own control-flow signals are exception classes like any other: a process may raise them (a nested
+# environment stepped by a process runs dry; a library that re-exports StopSimulation) - used only by cases that ask
+EXC_CTL = {'StopSimulation': StopSimulation, 'EmptySchedule': EmptySchedule}
+
+
 def rv(v):
     """Realise a value of a case: '!exc:<class>:<n>' stands for an exception *object* used as an ordinary value (a caught
     error handed on as a result, an exception stored as an item) - it must travel like any other value."""
@@ -74,6 +79,8 @@ def mkexc(spec):
         return EXC[spec[0]](spec[1][0] if spec[1] else 0)
     if spec[0] in ('PacketError', 'Congested'):
         return EXC[spec[0]](spec[1][0] if spec[1] else 0, 'lost')
+    if spec[0] in EXC_CTL:
+        return EXC_CTL[spec[0]](*spec[1])
     return EXC.get(spec[0], ValueError)(*spec[1])
 
 
@@ -659,6 +666,7 @@ def setup_world(case, env=None):
     if case.get('noprobe'):
         env.probe_enabled = False
     w = World(env)
+    w.ctl = bool(case.get('ctl_exc'))
     w.doors = case.get('doors', 'env')
     for s in case.get('shared', []):
         ev = w.mk_event()
@@ -697,12 +705,21 @@ def drive(w, plan, max_steps=3000):
         if env.step_no >= max_steps:
             break
         k = item[0]
-        if k == 'run':
+        if k == 'real_run':
+            # the caller's plain env.run(): until nothing is left - or until a failure nobody handled comes out of it
+            try:
+                r = env.run()
+                w.rec('D', 'run', None, 'ret', san(r), None)
+            except (Exception, HarnessAbort) as e:
+                w.rec('D', 'run', None, 'exc', san(e), None)
+            w.rec('DN', env.now, env.peek() == float('inf'))
+        elif k == 'run':
             while env.step_no < max_steps:
                 try:
                     env.step()
                 except EmptySchedule:
-                    break
+                    if env.peek() == float('inf'):
+                        break
                 except StopSimulation:
                     pass
                 except (Exception, HarnessAbort):
@@ -734,6 +751,8 @@ def drive(w, plan, max_steps=3000):
             except (Exception, HarnessAbort) as e:
                 # the call is over (abandoned by an exception of the program); its stop must not end a later run
                 w.rec('D', 'until', t, 'exc', san(e), now0)
+            if getattr(w, 'ctl', False):
+                w.rec('DN', env.now, env.peek() == float('inf'))
         elif k in ('until_ev', 'until_cond'):
             if k == 'until_cond':
                 # the caller waits for a combination of events: a condition built outside any process
